@@ -53,7 +53,11 @@ func init() {
 	// c12.blind <curve> <pkx> <pky> <blind key bytes> <ctx>; c12.unblind likewise
 	replayers["c12.blind"] = func(c *Ctx, a []string) string {
 		cv := curves[a[0]]
-		bk, _ := ecdsa.CreateKey(cv, unhx(a[3]))
+		kb := unhx(a[3])
+		bk, _ := ecdsa.CreateKey(cv, kb)
+		for i := range kb { // the bytes a key was created from are the caller's to reuse
+			kb[i] ^= 0x6d
+		}
 		// the context is handed over in one long-lived buffer that the caller overwrites for the next call
 		c12ctxBuf = append(c12ctxBuf[:0], unhx(a[4])...)
 		p, err := ecdsa.BlindPublicKeyWithContext(cv, &ecdsa.PublicKey{Curve: cv, X: parseBig(a[1]), Y: parseBig(a[2])}, bk, c12ctxBuf)
@@ -64,7 +68,11 @@ func init() {
 	}
 	replayers["c12.unblind"] = func(c *Ctx, a []string) string {
 		cv := curves[a[0]]
-		bk, _ := ecdsa.CreateKey(cv, unhx(a[3]))
+		kb := unhx(a[3])
+		bk, _ := ecdsa.CreateKey(cv, kb)
+		for i := range kb {
+			kb[i] ^= 0x6d
+		}
 		c12ctxBuf = append(c12ctxBuf[:0], unhx(a[4])...)
 		p, err := ecdsa.UnblindPublicKeyWithContext(cv, &ecdsa.PublicKey{Curve: cv, X: parseBig(a[1]), Y: parseBig(a[2])}, bk, c12ctxBuf)
 		if err != nil {
@@ -75,7 +83,16 @@ func init() {
 	// c13.verify <curve> <pkx> <pky> <digest> <r> <s>
 	replayers["c13.verify"] = func(c *Ctx, a []string) string {
 		cv := curves[a[0]]
-		ok := ecdsa.Verify(&ecdsa.PublicKey{Curve: cv, X: parseBig(a[1]), Y: parseBig(a[2])}, unhx(a[3]), parseBig(a[4]), parseBig(a[5]))
+		pk := &ecdsa.PublicKey{Curve: cv, X: parseBig(a[1]), Y: parseBig(a[2])}
+		d, rr, ss := unhx(a[3]), parseBig(a[4]), parseBig(a[5])
+		ok := ecdsa.Verify(pk, d, rr, ss)
+		// the same objects again: the arguments are the caller's, unchanged, and the verdict is a function of them
+		if rr.Cmp(parseBig(a[4])) != 0 || ss.Cmp(parseBig(a[5])) != 0 || pk.X.Cmp(parseBig(a[1])) != 0 || pk.Y.Cmp(parseBig(a[2])) != 0 || !bytes.Equal(d, unhx(a[3])) {
+			return "arguments-changed"
+		}
+		if ecdsa.Verify(pk, d, rr, ss) != ok {
+			return "verdict-changed-on-second-call"
+		}
 		return b2s(ok)
 	}
 	// c13.der <curve> <pkx> <pky> <digest> <sig bytes>
@@ -91,7 +108,11 @@ func init() {
 		fmt.Sscanf(a[1], "%d", &pos)
 		fmt.Sscanf(a[2], "%d", &chunk)
 		sk, _ := ecdsa.CreateKey(cv, bytes.Repeat([]byte{7}, 20))
-		rd := &failReader{limit: pos, chunk: chunk}
+		mode := 0
+		if len(a) > 3 {
+			fmt.Sscanf(a[3], "%d", &mode)
+		}
+		rd := &failReader{limit: pos, chunk: chunk, mode: mode}
 		r, s, err := ecdsa.Sign(rd, sk, bytes.Repeat([]byte{1}, 32))
 		signRes := "sig"
 		if err != nil {
@@ -102,7 +123,7 @@ func init() {
 		}
 		if pos == 32 && signRes != "err+sig" {
 			// MaybeReadByte's coin decides between 32 and 33 bytes
-			rd2 := &failReader{limit: pos, chunk: chunk}
+			rd2 := &failReader{limit: pos, chunk: chunk, mode: mode}
 			k, err2 := ecdsa.GenerateKey(cv, rd2)
 			genRes := "key"
 			if err2 != nil {
@@ -114,7 +135,7 @@ func init() {
 			return fmt.Sprintf("sign=coin gen=%s(%d)", genRes, rd2.served)
 		}
 		consumedSign := rd.served
-		rd2 := &failReader{limit: pos, chunk: chunk}
+		rd2 := &failReader{limit: pos, chunk: chunk, mode: mode}
 		k, err := ecdsa.GenerateKey(cv, rd2)
 		genRes := "key"
 		if err != nil {
@@ -144,13 +165,21 @@ func init() {
 		var pos, chunk int
 		fmt.Sscanf(a[0], "%d", &pos)
 		fmt.Sscanf(a[1], "%d", &chunk)
-		rd := &failReader{limit: pos, chunk: chunk}
+		mode := 0
+		if len(a) > 2 {
+			fmt.Sscanf(a[2], "%d", &mode)
+		}
+		rd := &failReader{limit: pos, chunk: chunk, mode: mode}
 		pk, sk, err := ed25519.GenerateKey(rd)
 		if err != nil {
 			if pk != nil || sk != nil {
 				return "err+key"
 			}
 			return fmt.Sprintf("err(%d)", rd.served)
+		}
+		// the public key is the caller's own copy: writing into it does not reach the private key
+		for i := range pk {
+			pk[i] ^= 0x99
 		}
 		return fmt.Sprintf("ok(%d) %s", rd.served, hxv(sk))
 	}
@@ -192,6 +221,19 @@ func init() {
 // once `limit` bytes have been served (limit < 0: never).
 type failReader struct {
 	limit, chunk, served int
+	// mode%10: the error value (0 a custom error, 1 io.EOF, 2 io.ErrUnexpectedEOF);
+	// mode/10 == 1: the read that reaches the limit exactly already reports the error together with its data
+	mode int
+}
+
+func (f *failReader) err() error {
+	switch f.mode % 10 {
+	case 1:
+		return io.EOF
+	case 2:
+		return io.ErrUnexpectedEOF
+	}
+	return errors.New("entropy source failed")
 }
 
 func (f *failReader) Read(p []byte) (int, error) {
@@ -199,13 +241,13 @@ func (f *failReader) Read(p []byte) (int, error) {
 	if f.chunk > 0 && n > f.chunk {
 		n = f.chunk
 	}
-	if f.limit >= 0 && f.served+n > f.limit {
+	if f.limit >= 0 && (f.served+n > f.limit || (f.mode/10 == 1 && f.served+n == f.limit)) {
 		n = f.limit - f.served
 		for i := 0; i < n; i++ {
-			p[i] = byte(f.served + i)
+			p[i] = byte(37*(f.served+i) + 11)
 		}
 		f.served += n
-		return n, errors.New("entropy source failed")
+		return n, f.err()
 	}
 	for i := 0; i < n; i++ {
 		p[i] = byte(37*(f.served+i) + 11)
@@ -270,6 +312,8 @@ func runC12(c *Ctx) {
 						map[string]any{"curve": cn, "blind": hx(blind), "ctx1": hx(ctx), "ctx2": hx(ctx2), "first": out, "second": o2})
 				}
 			}
+			c.Direct(bk.D.Cmp(new(big.Int).SetBytes(blind)) == 0 && sk.D.Cmp(new(big.Int).Mod(new(big.Int).SetBytes(dBytes), N)) == 0,
+				"a key object handed to a blinding operation was changed by it", in)
 			// unblind inverts blind
 			c.Run("c12.unblind", cn, bigHex(bp.X), bigHex(bp.Y), hx(blind), hx(ctx))
 			up, err := ecdsa.UnblindPublicKeyWithContext(cv, bp, bk, ctx)
@@ -301,6 +345,7 @@ func runC12(c *Ctx) {
 			c.Direct(ecdsa.Verify(bp, digest, rr, ss), "blinded signature does not verify under the blinded key (fork)", in)
 			c.Direct(stdecdsa.Verify(&stdecdsa.PublicKey{Curve: cv, X: bp.X, Y: bp.Y}, digest, rr, ss), "blinded signature does not verify under the blinded key (crypto/ecdsa)", in)
 			c.Direct(!ecdsa.Verify(&sk.PublicKey, digest, rr, ss), "blinded signature verifies under the unblinded key", in)
+			c.Direct(bk.D.Cmp(new(big.Int).SetBytes(blind)) == 0, "the blind key object was changed by signing", in)
 			c.Run("c13.verify", cn, bigHex(sk.X), bigHex(sk.Y), hx(digest), bigHex(rr), bigHex(ss))
 		}
 	}
@@ -405,6 +450,17 @@ func runC13(c *Ctx) {
 			}
 			forkDer, err := ecdsa.SignASN1(theRand, sk, digest)
 			must(err)
+			// a signature handed out earlier keeps its contents while the next ones are made
+			held := append([]byte{}, forkDer...)
+			rr0, ss0 := new(big.Int).Set(rr), new(big.Int).Set(ss)
+			for k := 0; k < 3; k++ {
+				d3 := r.Bytes(32)
+				_, err := ecdsa.SignASN1(theRand, sk, d3)
+				must(err)
+				_, _, err = ecdsa.Sign(theRand, sk, d3)
+				must(err)
+			}
+			c.Direct(bytes.Equal(held, forkDer) && rr.Cmp(rr0) == 0 && ss.Cmp(ss0) == 0, "an earlier signature changed while later ones were made", map[string]any{"curve": cn})
 			asn("fork-signed", forkDer)
 			c.Direct(stdecdsa.VerifyASN1(std, digest, forkDer), "a fork ASN.1 signature does not verify in crypto/ecdsa", map[string]any{"curve": cn})
 			asn("good", good)
@@ -600,12 +656,35 @@ func runC14(c *Ctx) {
 		}
 		verify("smallS-1", ident, msg, mk(new(big.Int).Sub(t, big.NewInt(1))))
 	}
+	// a valid key, then a key that does not decode, offered repeatedly with a signature valid under the first
+	{
+		seed := r.Bytes(32)
+		sk := stded.NewKeyFromSeed(seed)
+		pkA := []byte(sk[32:])
+		var bad [][]byte
+		for len(bad) < 3 {
+			x := r.Bytes(32)
+			if edDecode(x) == nil {
+				bad = append(bad, x)
+			}
+		}
+		for _, X := range bad {
+			msg := r.Bytes(20)
+			sig := stded.Sign(sk, msg)
+			verify("cache:valid-key", pkA, msg, sig)
+			verify("cache:undecodable-key-first", X, msg, sig)
+			verify("cache:undecodable-key-again", X, msg, sig)
+			verify("cache:undecodable-key-third", X, msg, sig)
+			verify("cache:valid-key-again", pkA, msg, sig)
+		}
+	}
 	c14Scalars(c, r, L)
 	// entropy reader: consumed identically, error returned
 	for pos := 0; pos <= 34; pos++ {
-		for _, chunk := range []int{0, 1, 5} {
-			out := c.Run("c14.genkey", fmt.Sprint(pos), fmt.Sprint(chunk))
-			rd := &failReader{limit: pos, chunk: chunk}
+		for ci, chunk := range []int{0, 1, 5, 32, 33} {
+			mode := []int{0, 1, 2, 10, 11, 12}[(pos+ci)%6]
+			out := c.Run("c14.genkey", fmt.Sprint(pos), fmt.Sprint(chunk), fmt.Sprint(mode))
+			rd := &failReader{limit: pos, chunk: chunk, mode: mode}
 			pk, sk, err := stded.GenerateKey(rd)
 			want := ""
 			if err != nil {
@@ -614,7 +693,7 @@ func runC14(c *Ctx) {
 				want = fmt.Sprintf("ok(%d) %s", rd.served, hxv(sk))
 			}
 			_ = pk
-			c.Direct(out == want, "GenerateKey consumes the entropy reader differently from crypto/ed25519", map[string]any{"pos": pos, "chunk": chunk, "fork": out, "std": want})
+			c.Direct(out == want, "GenerateKey consumes the entropy reader differently from crypto/ed25519", map[string]any{"pos": pos, "chunk": chunk, "mode": mode, "fork": out, "std": want})
 			c.Count("genkey")
 		}
 	}
